@@ -39,7 +39,8 @@ def main (args : List String) : IO UInt32 := do
   | ["cache"] => loopState stdin stdout cacheStep (Drand.Beacon.Cache.empty 96); return 0
   | "chain" :: _ => loopState stdin stdout chainStep (Drand.Chain.Stack.init true []); return 0
   | ["hash"] => loopPure stdin stdout hashStep; return 0
-  | ["handler"] => loopState stdin stdout handlerStep ({} : Sim); return 0
+  | ["handler"] => loopState stdin stdout handlerStep ({ cfg := ⟨1, 0, 0, Gen.Handler.bnpSkipAhead⟩ } : Sim); return 0
+  | ["handler", "asis"] => loopState stdin stdout handlerStep ({ cfg := ⟨1, 0, 0, false⟩ } : Sim); return 0
   | ["handler", "fixed"] => loopState stdin stdout handlerStep ({ cfg := ⟨1, 0, 0, true⟩ } : Sim); return 0
   | ["store", backend] =>
     match storeInit backend with
